@@ -363,6 +363,12 @@ def consumedOf (s rest : List Nat) : List Nat := s.take (s.length - rest.length)
 
 def boolTrueText : List Nat := [63, 49]   -- "?1"
 
+/-- The optional `=bareItem` after a parameter key (`val = "?1"` when there is no '='). -/
+def paramValue (r1 : List Nat) : Option (List Nat × List Nat) :=
+  match r1 with
+  | 61 :: r2 => consumeBareItem r2
+  | _ => some (boolTrueText, r1)
+
 /-- Loop of `consumeParameter`: returns (callbacks (key, val), rest). -/
 def paramLoop : Nat → List Nat → Option (List (List Nat × List Nat) × List Nat)
   | 0, _ => none
@@ -374,18 +380,12 @@ def paramLoop : Nat → List Nat → Option (List (List Nat × List Nat) × List
       else match consumeKey (dropSP r) with
         | none => none
         | some (key, r1) =>
-          match r1 with
-          | 61 :: r2 =>
-            (match consumeBareItem r2 with
-             | none => none
-             | some (val, r3) =>
-               match paramLoop fuel r3 with
-               | none => none
-               | some (cbs, out) => some ((key, val) :: cbs, out))
-          | _ =>
-            match paramLoop fuel r1 with
+          match paramValue r1 with
+          | none => none
+          | some (val, r3) =>
+            match paramLoop fuel r3 with
             | none => none
-            | some (cbs, out) => some ((key, boolTrueText) :: cbs, out)
+            | some (cbs, out) => some ((key, val) :: cbs, out)
 
 /-- `consumeParameter(s, f)`: (callbacks, consumed, rest). -/
 def consumeParameter (s : List Nat) : Option (List (List Nat × List Nat) × List Nat × List Nat) :=
